@@ -468,3 +468,122 @@ Example view_repaired_examples :
   view_read repaired w5_15 a20 [2] [8] = Ok [VI 13; VI 14] /\
   view_read repaired w5_15 a20 [2] [9] = Err oob.
 Proof. repeat split; vm_compute; reflexivity. Qed.
+
+(** * Value transfers: the templates of DataSet.hpp through a view *)
+
+Lemma prod_repeat1 : forall n, prod (repeat 1 n) = 1.
+Proof. induction n as [|n IH]; cbn [repeat prod]; [reflexivity | rewrite IH; reflexivity]. Qed.
+
+Lemma all_u64_repeat1 : forall n, all_u64 (repeat 1 n).
+Proof. induction n; cbn [repeat]; [constructor | apply all_u64_cons; split; [unfold two64; lia | assumption]]. Qed.
+
+Lemma length_zero_nil : forall {A} (l : list A), List.length l = 0%nat -> l = [].
+Proof. destruct l; [reflexivity | discriminate]. Qed.
+
+(** repaired: the count the templates hand on is the specification's *)
+Lemma tpl_counts_repaired : forall B v vshape off,
+  scalar_template_empty_count B = false -> (off = [] \/ List.length off = List.length (v_count v)) ->
+  tpl_get_count B (List.length (view_extent v)) vshape off = spec_value_count v vshape /\
+  tpl_set_count B (List.length (view_extent v)) vshape off = spec_value_count v vshape.
+Proof.
+  intros B v vshape off HB Ho. unfold tpl_get_count, tpl_set_count, spec_value_count, scalar_count, view_extent. rewrite HB.
+  destruct vshape; [|split; reflexivity].
+  destruct Ho as [-> | Ho]; [split; reflexivity|]. destruct off; [split; reflexivity | rewrite Ho; split; reflexivity].
+Qed.
+
+Lemma value_count_prod : forall v vshape, prod (real_count v (spec_value_count v vshape)) = prod vshape.
+Proof.
+  intros v vshape. unfold spec_value_count. destruct vshape as [|x r]; [|reflexivity].
+  destruct (List.length (v_count v)) eqn:E.
+  - cbn [repeat real_count]. rewrite (length_zero_nil _ E). reflexivity.
+  - cbn [repeat real_count prod]. rewrite prod_repeat1. reflexivity.
+Qed.
+
+Lemma value_count_rank : forall v vshape, (vshape = [] \/ List.length vshape = List.length (v_count v)) ->
+  spec_value_count v vshape = [] \/ List.length (spec_value_count v vshape) = List.length (v_count v).
+Proof.
+  intros v vshape [-> | H]; unfold spec_value_count.
+  - right. apply repeat_length.
+  - destruct vshape; [left; reflexivity | right; exact H].
+Qed.
+
+Lemma value_count_u64 : forall v vshape, all_u64 vshape -> all_u64 (spec_value_count v vshape).
+Proof. intros v vshape U. unfold spec_value_count. destruct vshape; [apply all_u64_repeat1 | exact U]. Qed.
+
+(** VALUE READS never run over the value: with the templates repaired, getData(value, offset) through a view is the
+    (count, offset) request of one element (scalar) resp. n elements (vector) - the elements, or an exception *)
+Theorem view_get_value_spec : forall B a v vshape buf off,
+  scalar_template_empty_count B = false -> view_check_wraps B = false -> view_ok a v ->
+  all_u64 vshape -> all_u64 off ->
+  (vshape = [] \/ List.length vshape = List.length (v_count v)) -> (off = [] \/ List.length off = List.length (v_count v)) ->
+  buf = prod vshape ->
+  view_get_value B v a vshape buf off = spec_get_value v a vshape off.
+Proof.
+  intros B a v vshape buf off HS HB OK Uv Uo Rv Ro Hbuf.
+  unfold view_get_value, spec_get_value.
+  rewrite (proj1 (tpl_counts_repaired B v vshape off HS Ro)).
+  rewrite (view_read_meets_spec B a v _ off HB OK (value_count_u64 v vshape Uv) Uo (conj (value_count_rank v vshape Rv) Ro)).
+  unfold spec_view_read. destruct (inside_window v (spec_value_count v vshape) off) eqn:IN; [|reflexivity].
+  cbn [bind]. unfold zlen. rewrite tab_length.
+  unfold inside_window in IN. pose proof (prod_nonneg _ (fits_shape_ok _ _ _ IN)) as P0.
+  rewrite Z2Nat.id by exact P0. rewrite value_count_prod, Hbuf, Z.ltb_irrefl. reflexivity.
+Qed.
+
+Theorem view_set_value_spec : forall B a v vshape buf off gen,
+  scalar_template_empty_count B = false -> view_check_wraps B = false -> view_ok a v ->
+  all_u64 vshape -> all_u64 off ->
+  (vshape = [] \/ List.length vshape = List.length (v_count v)) -> (off = [] \/ List.length off = List.length (v_count v)) ->
+  buf = prod vshape ->
+  view_set_value B v a vshape buf off gen = spec_set_value v a vshape off gen.
+Proof.
+  intros B a v vshape buf off gen HS HB OK Uv Uo Rv Ro Hbuf.
+  unfold view_set_value, spec_set_value.
+  rewrite (proj2 (tpl_counts_repaired B v vshape off HS Ro)).
+  rewrite (view_write_meets_spec B a v _ off gen HB OK (value_count_u64 v vshape Uv) Uo (conj (value_count_rank v vshape Rv) Ro)).
+  unfold spec_view_write. destruct (inside_window v (spec_value_count v vshape) off); [|reflexivity].
+  cbn [bind]. rewrite value_count_prod, Hbuf, Z.ltb_irrefl. reflexivity.
+Qed.
+
+(** in particular: no undefined behaviour, and a scalar moves exactly one element - the window origin for an empty offset *)
+Corollary scalar_read_one_element : forall B a v off,
+  scalar_template_empty_count B = false -> view_check_wraps B = false -> view_ok a v -> all_u64 off ->
+  (off = [] \/ List.length off = List.length (v_count v)) ->
+  view_get_value B v a [] 1 off = Err oob \/
+  view_get_value B v a [] 1 off = Ok [get a (vadd (v_offset v) (real_offset v off))].
+Proof.
+  intros B a v off HS HB OK Uo Ro.
+  rewrite (view_get_value_spec B a v [] 1 off HS HB OK ltac:(constructor) Uo (or_introl eq_refl) Ro eq_refl).
+  unfold spec_get_value, spec_view_read. destruct (inside_window v (spec_value_count v []) off) eqn:IN; [right | left; reflexivity].
+  f_equal. unfold spec_value_count.
+  destruct (List.length (v_count v)) eqn:E.
+  - cbn [repeat real_count]. rewrite (length_zero_nil _ E).
+    destruct OK as [_ F _ _ _]. destruct (fits_lengths _ _ _ F) as [L1 L2].
+    assert (v_offset v = []) by (apply length_zero_nil; lia).
+    assert (real_offset v off = []).
+    { destruct Ro as [-> | Ho]; [cbn [real_offset]; rewrite E; reflexivity|]. destruct off; [reflexivity | cbn [List.length] in Ho; lia]. }
+    rewrite H, H0. reflexivity.
+  - cbn [repeat real_count]. change (1 :: repeat 1 n) with (repeat 1 (S n)).
+    (* a box of ones has one index: zeros *)
+    unfold tab. rewrite prod_repeat1. cbn [Z.to_nat Pos.to_nat Pos.iter_op seq map Nat.add]. f_equal. f_equal.
+    assert (Hz : forall m, unravel (repeat 1 m) 0 = repeat 0 m).
+    { induction m as [|m IHm]; cbn [repeat unravel]; [reflexivity|]. rewrite prod_repeat1. cbn. rewrite IHm. reflexivity. }
+    cbn [Z.of_nat]. rewrite Hz.
+    unfold inside_window in IN. destruct (fits_lengths _ _ _ IN) as [L1 _].
+    destruct OK as [_ F _ _ _]. destruct (fits_lengths _ _ _ F) as [L3 L4].
+    replace (S n) with (List.length (vadd (v_offset v) (real_offset v off))) by (rewrite vadd_length; lia).
+    apply vadd_zeros.
+Qed.
+
+(** the unrepaired templates: window [2,8) of 20 elements, scalar value, empty offset: six elements are written to the
+    address of one, resp. read from it; on the array itself HDF5 refuses the same calls *)
+Example scalar_template_refuted :
+  let w := mkView [2] [6] in
+  view_get_value repo_e3eed7c w a20 [] 1 [] = UB value_overrun_read /\
+  view_set_value repo_e3eed7c w a20 [] 1 [] (gen_from 100) = UB value_overrun_write /\
+  view_set_value repo_e3eed7c w a20 [] 1 [0] (gen_from 100) = UB value_overrun_write /\
+  arr_get_value repo_e3eed7c a20 [] 1 [] = Err h5error /\
+  view_get_value repaired_except_pinned w a20 [] 1 [] = Ok [VI 2] /\
+  view_get_value repaired_except_pinned w a20 [] 1 [5] = Ok [VI 7] /\
+  view_get_value repaired_except_pinned w a20 [] 1 [6] = Err oob /\
+  spec_get_value w a20 [] [] = Ok [VI 2].
+Proof. repeat split; vm_compute; reflexivity. Qed.
